@@ -9,6 +9,10 @@ Correspondence (D): the real tak.model.encoding.encode / decode / encode_batch a
     but a disagreement THERE is not a violation of the property (it is listed in the evidence),
   * token streams that are no encodings (decode on malformed input; same remark),
   * batches of positions in shuffled order incl. mixed sizes and out-of-domain members,
+  * batch HISTORIES: r1 = encode_batch(A); r2 = encode_batch(B) [; r3 = encode_batch(C)] with len(B) == len(A)
+    (B = reversed(A), B = A, other positions of the same / a larger / a smaller width), after which EVERY earlier
+    result is read again (tokens and mask) and compared with the model's batch of ITS OWN input - a result
+    that a later call overwrites (shared buffer) is a violation with the whole call sequence as the replay,
 and the observed lists / decoded positions / nested tensors are compared inside Coq with
 model/Encoding.v (check_position, check_decode, check_batch).  Every in-domain input is also
 put through an executable oracle of the property's own clauses on the implementation
@@ -385,6 +389,111 @@ def oracle_batch(torch, enc, ps, s):
     return bad
 
 
+def expected_batch(enc, ps, s):
+    encs = [[int(t) for t in enc.encode(p, s)] for p in ps]
+    w = max([len(e) for e in encs], default=0)
+    return ([e + [0] * (w - len(e)) for e in encs], [[True] * len(e) + [False] * (w - len(e)) for e in encs])
+
+
+def _storage_ptr(t):
+    try:
+        return t.untyped_storage().data_ptr()
+    except Exception:  # noqa
+        return t.data_ptr()
+
+
+def run_history(torch, enc, hist):
+    """hist = [(positions, include_sentinel), ...]: the calls are made in order; every result is read right
+    after its own call ('first') and once more after the LAST call ('late').  -> (records, sharing pairs)"""
+    recs = []
+    for ps, s in hist:
+        try:
+            out, mask = enc.encode_batch(ps, s)
+            ok = out.dtype == torch.uint8 and mask.dtype == torch.bool and out.shape == mask.shape and out.dim() == 2
+            recs.append({"out": out, "mask": mask, "first": (out.tolist(), mask.tolist()) if ok else None,
+                         "shape_ok": ok})
+        except IndexError:
+            recs.append({"exc": ("raise", "IndexError")})
+        except Exception as e:  # noqa
+            recs.append({"exc": ("crash", type(e).__name__)})
+    for r in recs:
+        if "exc" in r:
+            r["late_obs"] = r["exc"]
+        elif not r["shape_ok"]:
+            r["late_obs"] = ("crash", "dtype/shape")
+        else:
+            r["late"] = (r["out"].tolist(), r["mask"].tolist())
+            r["late_obs"] = ("ok", r["late"])
+    sharing = []
+    for i in range(len(recs)):
+        for j in range(i + 1, len(recs)):
+            a, b = recs[i], recs[j]
+            if "out" in a and "out" in b:
+                for name in ("out", "mask"):
+                    if a[name].numel() and b[name].numel() and _storage_ptr(a[name]) == _storage_ptr(b[name]):
+                        sharing.append({"calls": [i, j], "tensor": name})
+    return recs, sharing
+
+
+def oracle_history(torch, enc, hist):
+    """-> list of dicts describing calls whose result, read after the last call, is not the batch of its own input"""
+    recs, sharing = run_history(torch, enc, hist)
+    bad = []
+    for k, ((ps, s), r) in enumerate(zip(hist, recs)):
+        try:
+            exp = expected_batch(enc, ps, s)
+        except Exception:  # noqa
+            continue
+        if r["late_obs"][0] != "ok":
+            bad.append({"call": k, "what": f"encode_batch raised {r['late_obs'][1]} on encodable positions"})
+            continue
+        late = r["late"]
+        if (late[0], late[1]) != exp:
+            changed = r["first"] is not None and (r["first"][0], r["first"][1]) != (late[0], late[1])
+            part = "tokens" if late[0] != exp[0] else "mask"
+            bad.append({"call": k, "what": (f"the result of call {k} (of {len(hist)}) no longer holds the batch of its own input "
+                                            f"after the later call(s): {part} differ" if changed else
+                                            f"the result of call {k} is not the padded per-position encoding ({part} differ)"),
+                        "changed_after_return": changed,
+                        "shares_storage_with_calls": [x for x in sharing if k in x["calls"]],
+                        "read_right_after_the_call": None if r["first"] is None else {"rows": r["first"][0], "mask": r["first"][1]},
+                        "read_after_the_last_call": {"rows": late[0], "mask": late[1]},
+                        "expected": {"rows": exp[0], "mask": exp[1]}})
+    return bad, recs, sharing
+
+
+def make_history(rng, dom_pool, by_size, i):
+    """call sequences around one batch length: reversed, repeated, other positions, wider / narrower followers"""
+    n = rng.choice([1, 2, 2, 3, 4, 5, 8])
+    szs = sorted(by_size)
+    sa = rng.choice(szs)
+    A = [rng.choice(by_size[sa]) for _ in range(n)]
+    kind = i % 6
+    s = (i % 2 == 0)
+    if kind == 0:
+        hist = [(A, s), (list(reversed(A)), s)]
+    elif kind == 1:                                   # other positions, same board size (often the same width)
+        hist = [(A, s), ([rng.choice(by_size[sa]) for _ in range(n)], s)]
+    elif kind == 2:                                   # the follower is wider
+        sb = rng.choice([z for z in szs if z >= sa])
+        hist = [(A, s), ([rng.choice(by_size[max(szs)]) if k == 0 else rng.choice(by_size[sb]) for k in range(n)], s)]
+    elif kind == 3:                                   # the follower is narrower
+        hist = [(A, s), ([rng.choice(by_size[min(szs)]) for _ in range(n)], s)]
+    elif kind == 4:                                   # three calls, mixed sizes, the middle one of another length
+        hist = [(A, s), ([rng.choice(dom_pool) for _ in range(n + 1)], s), ([rng.choice(dom_pool) for _ in range(n)], not s)]
+    else:                                             # the same batch twice, then something else
+        hist = [(A, s), (list(A), s), ([rng.choice(dom_pool) for _ in range(n)], s)]
+    return hist
+
+
+def j_history(hist):
+    return [{"include_sentinel": s, "positions": [takio.j_pos(p) for p in ps]} for ps, s in hist]
+
+
+def history_key(hist):
+    return "history:" + hashlib.sha256(json.dumps(j_history(hist), sort_keys=True).encode()).hexdigest()[:16]
+
+
 # --------------------------------------------------------------------------
 # correspondence
 # --------------------------------------------------------------------------
@@ -406,8 +515,8 @@ def position_case(tak, torch, enc, p, ss):
 
 def _volumes(run):
     if run.quick:
-        return dict(playout=3000, constructed=1500, ood=500, malformed=1200, batches=200)
-    return dict(playout=20000, constructed=10000, ood=3000, malformed=8000, batches=2000)
+        return dict(playout=3000, constructed=1500, ood=500, malformed=1200, batches=200, histories=60)
+    return dict(playout=20000, constructed=10000, ood=3000, malformed=8000, batches=2000, histories=400)
 
 
 def _pos_cases():
@@ -550,6 +659,61 @@ def correspondence(run):
               [{"include_sentinel": cb.metas[2]["include_sentinel"], "sizes": [p["size"] for p in cb.metas[2]["positions"]]}]
               if len(cb) > 2 else [], bdist, label="batch")
 
+    # ---------------- batch histories: every earlier result is read again after the later calls
+    by_size = {}
+    for p in dom_pool:
+        by_size.setdefault(p.size, []).append(p)
+    ch = core.Cases(ID, "batch_history", HEADER, "batch_case", "check_batch", show="view_batch", shard=25)
+    hdist = {"calls": 0, "same_length_followers": 0, "reversed": 0, "wider_follower": 0, "narrower_follower": 0,
+             "storage_shared_between_results": 0}
+    hnon = 0
+    hist_reported = set()
+    for i in range(vol["histories"]):
+        hist = make_history(rng, dom_pool, by_size, i)
+        bad, recs, sharing = oracle_history(torch, enc, hist)
+        jh = j_history(hist)
+        key = history_key(hist)
+        hdist["calls"] += len(hist)
+        hdist["storage_shared_between_results"] += bool(sharing)
+        widths = [len(r["late"][0][0]) if r.get("late") and r["late"][0] else 0 for r in recs]
+        for k in range(1, len(hist)):
+            if len(hist[k][0]) == len(hist[0][0]):
+                hdist["same_length_followers"] += 1
+                hdist["wider_follower"] += widths[k] > widths[0]
+                hdist["narrower_follower"] += widths[k] < widths[0]
+        hdist["reversed"] += (i % 6 == 0)
+        if len(hist[0][0]) >= 2 and len({tuple(r) for r in (recs[0].get("late") or ([], []))[0]}) > 1:
+            hnon += 1
+        for k, ((ps, s_k), r) in enumerate(zip(hist, recs)):
+            ch.add(f"({cbool(s_k)}, {clist([takio.c_pos(p) for p in ps])}, {c_obs(r['late_obs'], c_rows)})",
+                   {"key": key, "history": jh, "call": k, "sharing": sharing,
+                    "observed": {"exception": r["late_obs"][1]} if r["late_obs"][0] != "ok"
+                    else {"rows": r["late"][0], "mask": r["late"][1]}})
+        for b in bad[:1]:
+            hist_reported.add(key)
+            _report(run, reported, "oracle-history", key,
+                    dict({"clause": "batch encoding equals per-position encoding padded under a mask marking exactly the real "
+                                    "tokens - for all batches in any order: " + b["what"],
+                          "input": {"history": jh}, "storage_sharing": sharing}, **b))
+    failing_h, shard_fail_h, nsh_h = ch.run()
+    run.oblige(f"correspondence:batch-history ({nsh_h} shards)", not shard_fail_h, str(shard_fail_h)[:1500])
+    for meta in failing_h:
+        if meta["key"] in hist_reported:      # the oracle's replay (same key) already carries the full picture
+            continue
+        view = ch.model_view(ch.terms[ch.metas.index(meta)]) if reported.get("model-history", 0) < MAX_REPORT else None
+        _report(run, reported, "model-history", meta["key"],
+                {"clause": f"the result of encode_batch call {meta['call']}, read after the last call of the sequence, differs "
+                           "from the proved model's batch of that call's own input",
+                 "input": {"history": meta["history"]}, "call": meta["call"], "storage_sharing": meta["sharing"],
+                 "read_after_the_last_call": meta["observed"], "model_view": view})
+    run.count(hdist["calls"], hnon,
+              "call sequences r1 = encode_batch(A); r2 = encode_batch(B) [; r3] with followers of the same length "
+              "(reversed, identical, other positions, wider, narrower, other include_sentinel): every result re-read after "
+              "the last call and compared in Coq with the model's batch of its own input, and with the padded per-position "
+              "encodings; non-trivial = first batch has >= 2 distinct rows",
+              [{"calls": [[p["size"] for p in c["positions"]] for c in ch.metas[0]["history"]]}] if len(ch) else [],
+              hdist, label="batch-history")
+
     run.extra["out_of_domain_disagreements"] = len(ood_disagree)
     run.extra["out_of_domain_disagreement_samples"] = ood_disagree[:5]
     run.extra["reported_per_family"] = reported
@@ -586,12 +750,35 @@ def search(run, broken):
             run.violation("batch:" + hashlib.sha256(json.dumps([s, js], sort_keys=True).encode()).hexdigest()[:16],
                           {"clause": bad[0], "input": {"include_sentinel": s, "positions": js}})
             return True
+    # call sequences: a result must still be the batch of its own input after later calls
+    by_size = {}
+    for p in dom:
+        by_size.setdefault(p.size, []).append(p)
+    for i in range(3 * vol["histories"]):
+        hist = make_history(run.rng, dom, by_size, i)
+        bad, recs, sharing = oracle_history(torch, enc, hist)
+        if bad:
+            b = bad[0]
+            run.violation(history_key(hist),
+                          dict({"clause": "batch encoding equals per-position encoding padded under a mask marking exactly "
+                                          "the real tokens - for all batches in any order: " + b["what"],
+                                "input": {"history": j_history(hist)}, "storage_sharing": sharing}, **b))
+            return True
     return False
 
 
 def replay(run, rp):
     tak, torch, enc = _impl()
     inp = rp.get("input")
+    if isinstance(inp, dict) and "history" in inp:
+        hist = [([takio.mk_pos(d) for d in c["positions"]], bool(c["include_sentinel"])) for c in inp["history"]]
+        bad, recs, sharing = oracle_history(torch, enc, hist)
+        ch = core.Cases(ID, "replay_history", HEADER, "batch_case", "check_batch", show="view_batch", shard=25)
+        for (ps, s_k), r in zip(hist, recs):
+            ch.add(f"({cbool(s_k)}, {clist([takio.c_pos(p) for p in ps])}, {c_obs(r['late_obs'], c_rows)})", {})
+        failing, shard_fail, _ = ch.run()
+        return {"violates": bool(bad or failing or shard_fail), "oracle": bad, "model_disagrees": bool(failing),
+                "storage_sharing": sharing, "calls": len(hist)}
     if isinstance(inp, dict) and "positions" in inp:
         ps = [takio.mk_pos(d) for d in inp["positions"]]
         s = bool(inp.get("include_sentinel", True))
